@@ -23,7 +23,8 @@ Owned(P, s) ==
   \* C01 / C02 observe derivatives through gradient1 / gradient2, so those read-backs belong to them as well
   \* (the Python-facing arithmetic methods are the same operators as a Python user reaches them: C01 / C02 own them too)
   CASE Prop = "C01" -> (op \in Arith \cup {"gradient1"} \/ PyArith(P, s)) /\ RankOfStep(P, s) <= 1     \* bare numbers and numbers inside the generic container
-    [] Prop = "C02" -> (op \in Arith \cup {"to_d1", "gradient1", "gradient2", "manifold"} \/ PyArith(P, s)) /\ (RankOfStep(P, s) = 2 \/ op \in {"gradient2", "manifold"})
+    \* (every route down from second order is C02's: Dual::from(Dual2) and the set_order / set_order_clone arms of the container)
+    [] Prop = "C02" -> (op \in Arith \cup {"to_d1", "set_order", "set_order_clone", "gradient1", "gradient2", "manifold"} \/ PyArith(P, s)) /\ (RankOfStep(P, s) = 2 \/ op \in {"gradient2", "manifold"})
     [] Prop = "C03" -> op \in {"add", "sub", "mul", "div", "rem", "eq", "ne", "to_new_vars", "union_l", "union_r", "ptr_eq", "vars_cmp"} /\ ~AnyWrapped(P, s)
     [] Prop = "C17" -> op \in {"gradient1", "gradient2", "manifold", "mul", "union_l", "union_r", "to_new_vars"}      \* (re-alignment is judged by reading the result back by name)
     [] Prop = "C18" -> op \in {"wrap", "unwrap", "to_n", "to_f64", "to_d1", "to_d2", "set_order", "set_order_clone", "py"} \/ AnyWrapped(P, s)
